@@ -32,7 +32,25 @@ VMerge(ev) ==
 (* ["perm", projections] : one parse result per permutation of the records of one GenBank file *)
 VPerm(ev) == IF \E i \in DOMAIN ev[2] : ev[2][i][1] = "x" THEN "grouping:parse-failed"
              ELSE Ok(Cardinality({ev[2][i] : i \in DOMAIN ev[2]}) = 1, "grouping:order-independent")
-Verdict(ev) == CASE ev[1] = "pick" -> VPick(ev) [] ev[1] = "types" -> VTypes(ev) [] ev[1] = "merge" -> VMerge(ev)
+(* ["gffpick", attrs = <<key, value>>... in the order of column 9, outcome <<"v", <<symbol, biotype, id>>>>] : the GFF3
+   parser chooses a gene's symbol, biotype and identifier by its documented priority lists, whatever the order in which
+   the attributes are written *)
+GffSymPrio == <<"gene_name", "gene_symbol", "gene", "Name">>
+GffTypePrio == <<"gene_biotype", "gene_type">>
+GffIdPrio == <<"gene_id", "ID">>
+GffHas(attrs, k) == \E i \in DOMAIN attrs : attrs[i][1] = k
+GffVal(attrs, k) == attrs[CHOOSE i \in DOMAIN attrs : attrs[i][1] = k][2]
+GffPick(attrs, prio) == IF \E j \in DOMAIN prio : GffHas(attrs, prio[j])
+                        THEN GffVal(attrs, prio[CHOOSE j \in DOMAIN prio : GffHas(attrs, prio[j]) /\ \A h \in 1..(j - 1) : ~GffHas(attrs, prio[h])])
+                        ELSE "None"
+VGffPick(ev) ==
+  LET attrs == ev[2] o == ev[3] IN
+  IF o[1] # "v" THEN "gff3-priority:parses"
+  ELSE FirstBad(<< Ok(o[2][1] = GffPick(attrs, GffSymPrio), "gff3-priority:gene-symbol"),
+                   Ok(o[2][2] = GffPick(attrs, GffTypePrio), "gff3-priority:gene-biotype"),
+                   Ok(o[2][3] = GffPick(attrs, GffIdPrio), "gff3-priority:gene-id") >>)
+
+Verdict(ev) == CASE ev[1] = "gffpick" -> VGffPick(ev) [] ev[1] = "pick" -> VPick(ev) [] ev[1] = "types" -> VTypes(ev) [] ev[1] = "merge" -> VMerge(ev)
                  [] ev[1] = "perm" -> VPerm(ev) [] OTHER -> "unknown-op"
 Bad == {i \in DOMAIN Trace : Verdict(Trace[i]) # "ok"}
 ASSUME \A i \in Bad : PrintT(<<"BAD", i, Verdict(Trace[i])>>)
